@@ -432,6 +432,103 @@ theorem C08_cross_network_real (n₁ n₂ : Network) (h₁ : n₁ ∈ all) (h₂
     ∃ a, forScript realEnv n₂ (stdScript i) = .ok (some a) ∧ (a = addr ∨ a = asciiLower addr) :=
   C08_cross_network realEnv real_laws n₁ n₂ h₁ h₂ script addr hmade i hacc
 
+/-- ★ cross-network acceptance ACROSS the two checksum hashes (a Groestlcoin-family network and any other, either way):
+a Base58 address one of them produces is accepted by the other — as anything at all — only if, for the very payload the
+text carries, the first four bytes of double SHA-256 and of the Groestl hash coincide.  So a GRS address is refused by
+BTC (same P2SH version byte) and a BTC address by GRS unless the two hashes collide on 32 bits for that payload; nothing
+else about the hashes enters (for the real Groestl hash as for the stand-in: probability 2⁻³² per payload). -/
+theorem C08_cross_hash_real (n₁ n₂ : Network) (h₁ : n₁ ∈ all) (hk : n₁.hashParse ≠ n₂.hashParse)
+    (i₁ : Info) (hb₁ : i₁.isB58 = true) (addr : String) (hmade : forScriptInfo realEnv n₁ i₁ = .ok (some addr))
+    (i₂ : Info) (hb₂ : i₂.isB58 = true) (hacc : parseAddress realEnv n₂ addr = .ok (some i₂)) :
+    ∃ d : Bytes, d ≠ [] ∧ realEnv.b58cDec n₁.hashParse addr = some d ∧ realEnv.b58cDec n₂.hashParse addr = some d ∧
+      (Base58.hashFn .sha256d d).take 4 = (Base58.hashFn .groestl d).take 4 := by
+  have hhash := C08_table_hash n₁ h₁
+  have hpre := C08_table_prefixes n₁ h₁
+  have htab := C08_table_consistent n₁ h₁
+  -- what n₁ wrote: Base58Check of a non-empty payload under its own hash
+  obtain ⟨d₁, hd₁ne, haddr⟩ : ∃ d, d ≠ [] ∧ addr = realEnv.b58cEnc n₁.hashParse d := by
+    cases i₁ with
+    | p2pkh h =>
+      simp only [forScriptInfo, forP2pkh, b58Out] at hmade
+      cases hp : n₁.addrP2pkh with
+      | none => simp [hp] at hmade
+      | some p =>
+        simp only [hp, hhash, Except.ok.injEq, Option.some.injEq] at hmade
+        refine ⟨p ++ h, ?_, hmade.symm⟩
+        intro h0
+        have : p = [] := (List.append_eq_nil_iff.mp h0).1
+        subst this
+        simp [prefixesOk, ← htab.1, hp] at hpre
+    | p2sh h =>
+      simp only [forScriptInfo, forP2sh, b58Out] at hmade
+      cases hp : n₁.addrP2sh with
+      | none => simp [hp] at hmade
+      | some p =>
+        simp only [hp, hhash, Except.ok.injEq, Option.some.injEq] at hmade
+        refine ⟨p ++ h, ?_, hmade.symm⟩
+        intro h0
+        have : p = [] := (List.append_eq_nil_iff.mp h0).1
+        subst this
+        simp [prefixesOk, ← htab.2.1, hp] at hpre
+    | _ => simp [Info.isB58] at hb₁
+  have hdec₁ : realEnv.b58cDec n₁.hashParse addr = some d₁ := by rw [haddr]; exact real_b58_rt _ _ hd₁ne
+  -- what n₂ read: a Base58Check payload under ITS hash
+  obtain ⟨d₂, hdec₂⟩ : ∃ d, realEnv.b58cDec n₂.hashParse addr = some d := by
+    unfold parseAddress at hacc
+    split at hacc
+    · cases hacc
+    · cases hd : realEnv.b58cDec n₂.hashParse addr with
+      | some d => exact ⟨d, rfl⟩
+      | none =>
+        exfalso
+        have e1 : parseP2pkh realEnv n₂ addr = .ok none := parseB58Addr_none_of_dec realEnv n₂ _ _ _ hd
+        have e2 : parseP2sh realEnv n₂ addr = .ok none := parseB58Addr_none_of_dec realEnv n₂ _ _ _ hd
+        simp only [e1, e2, orElse] at hacc
+        -- only the segwit parsers are left, and they never return a Base58 kind
+        cases h3 : parseP2pkhSegwit realEnv n₂ addr with
+        | error e => simp [h3] at hacc
+        | ok o3 =>
+          cases o3 with
+          | some i3 =>
+            simp only [h3, Except.ok.injEq, Option.some.injEq] at hacc
+            subst hacc
+            obtain ⟨_, _, _, _, _, _, _, _, rfl⟩ := parseBech32m_some realEnv n₂ addr 0 20 .p2pkhWit i3 (by simp [Info.wellSized]) h3
+            simp [Info.isB58] at hb₂
+          | none =>
+            simp only [h3] at hacc
+            cases h4 : parseP2shSegwit realEnv n₂ addr with
+            | error e => simp [h4] at hacc
+            | ok o4 =>
+              cases o4 with
+              | some i4 =>
+                simp only [h4, Except.ok.injEq, Option.some.injEq] at hacc
+                subst hacc
+                obtain ⟨_, _, _, _, _, _, _, _, rfl⟩ := parseBech32m_some realEnv n₂ addr 0 32 .p2shWit i4 (by simp [Info.wellSized]) h4
+                simp [Info.isB58] at hb₂
+              | none =>
+                simp only [h4] at hacc
+                obtain ⟨_, _, _, _, _, _, _, _, rfl⟩ := parseBech32m_some realEnv n₂ addr 1 32 .p2tr i₂ (by simp [Info.wellSized]) hacc
+                simp [Info.isB58] at hb₂
+  -- both decodings of one text: one payload, and the two checksums coincide on it
+  have key : ∀ a b, realEnv.b58cDec .sha256d addr = some a → realEnv.b58cDec .groestl addr = some b →
+      a = b ∧ (Base58.hashFn .sha256d a).take 4 = (Base58.hashFn .groestl a).take 4 := by
+    intro a b ha hb
+    simp only [realEnv] at ha hb
+    split at ha
+    · rename_i hasc
+      rw [if_pos hasc] at hb
+      exact Base58.parse_both_collision _ _ _ ha hb
+    · cases ha
+  cases hk₁ : n₁.hashParse <;> cases hk₂ : n₂.hashParse <;> simp only [hk₁, hk₂] at hk hdec₁ hdec₂ ⊢
+  · exact absurd rfl hk
+  · obtain ⟨e, c⟩ := key _ _ hdec₁ hdec₂
+    subst e
+    exact ⟨d₁, hd₁ne, hdec₁, hdec₂, c⟩
+  · obtain ⟨e, c⟩ := key _ _ hdec₂ hdec₁
+    subst e
+    exact ⟨d₂, hd₁ne, hdec₁, hdec₂, c⟩
+  · exact absurd rfl hk
+
 /-- ◐ segwit round trip with the modelled codecs.  The one hypothesis left, `hx`, says the Bech32 string is not *also*
 accepted by the Base58Check decoder (the Base58 parsers run first).  It cannot be discharged from the table: `1` and
 most Bech32 data characters are Base58 characters, and HRPs such as `bc`, `tb`, `ltc` consist of Base58 characters
